@@ -292,6 +292,7 @@ func runC13(c *kit.Ctx) {
 
 	// ---- R7 -----------------------------------------------------------------
 	c.StartRule("R7", "every retry cycle passes the context-watching back-off wait (shared with C17.R3)", 6)
+	cancelledWaitReturnsItsOwnError(c)
 	retryLoopsWait(c)
 	lookupContexts(c)
 
